@@ -231,6 +231,7 @@ func vh_C07_BufferedScript() {
 	q := NewBufferedChannelQueue[int](1, bufMax, 1)
 	l := &c07Log{}
 	next := 0
+	raw := q.GetChannel() // obtained once: later receives on it do not wake the loader by themselves
 	offer := func() {
 		err := q.Offer(next)
 		vfAssert("offer-error-is-full-or-nil", err == nil || err == ErrQueueIsFull)
@@ -243,9 +244,15 @@ func vh_C07_BufferedScript() {
 	vfAssert("filled", len(l.accepted) == 1+bufMax)
 	steps := 3 + vfTier()
 	for i := 0; i < steps; i++ {
-		switch vfChoose("op", 3) {
+		switch vfChoose("op", 4) {
 		case 0:
 			offer()
+		case 3:
+			select {
+			case v := <-raw:
+				l.deliver(v)
+			default:
+			}
 		case 1:
 			if v, err := q.Poll(); err == nil {
 				l.deliver(v)
@@ -259,7 +266,7 @@ func vh_C07_BufferedScript() {
 		}
 		vfAssert("bounded", len(l.accepted)-len(l.delivered) <= 1+bufMax)
 	}
-	c07DrainHow(q, l, len(l.accepted), 0)
+	c07DrainHow(q, l, len(l.accepted), vfChoose("drain-how", 2))
 	c07Check(l, true)
 	// single producer: delivery order is exactly acceptance order
 	vfAssert("fifo", len(l.delivered) == len(l.accepted))
